@@ -37,6 +37,7 @@ func (eng *Engine) resolveTargets(cfg *PropConfig) ([]targetFn, []string) {
 			o.modes.Termination = o.modes.Termination || m.Termination
 			o.modes.Probes = o.modes.Probes || m.Probes
 			o.modes.NonNilParams = o.modes.NonNilParams || m.NonNilParams
+			o.modes.ReadOnly = o.modes.ReadOnly || m.ReadOnly
 			return
 		}
 		seen[fn] = len(out)
